@@ -333,22 +333,29 @@ class ProgGen:
         if export:
             np_ = r.randint(0, 3)
             params = [[f"p{i}", r.choice(["int", "int", "float"])] for i in range(np_)]
+            if r.random() < 0.25:
+                # a vector-typed parameter: passed by value; the host may pass the very same
+                # list object again in later invocations
+                params.append(["pv", r.choice(["int3", "float4"])])
             self.ret = r.choice(["int", "int", "float", "void"])
         else:
             params = [[f"a{i}", "int"] for i in range(r.randint(1, 2))]
             self.ret = "int"
         env = {n: t for n, t in self.globs}
         prefix = []
+        def ptype(t):
+            return {"int3": ["vec", "int", 3], "float4": ["vec", "float", 4]}.get(t, [t])
+
         if self.allow_calls:
             # CALL re-binds the caller's argument list on the unchanged VM (a C03
             # matter); keep C15 clear of it: parameters are copied into locals
             # first and never read again.
             for n, t in params:
-                prefix.append(["decl", [t], "q" + n[1:], ["var", n]])
-                env["q" + n[1:]] = [t]
+                prefix.append(["decl", ptype(t), "q" + n[1:], ["var", n]])
+                env["q" + n[1:]] = ptype(t)
         else:
             for n, t in params:
-                env[n] = [t]
+                env[n] = ptype(t)
         self.idxvars = []
         if export and r.random() < 0.6:
             params.append(["ix", "int"])
@@ -454,6 +461,11 @@ class ProgGen:
         }
 
 
+def resolve_args(args, hostobjs):
+    """Arguments as values: {"$ref": k} stands for the k-th host-owned vector object."""
+    return {n: (hostobjs[a["$ref"]] if isinstance(a, dict) and "$ref" in a else a) for n, a in args.items()}
+
+
 def draw_swarm(rng):
     return {
         "global_density": rng.choice([0.3, 0.6, 0.9]),
@@ -487,6 +499,8 @@ def gen_scenario(seed, tier="quick"):
     models = {}
     ops = []
     next_vm = 0
+    hostobjs = []  # vector objects owned by the host, passed (by identity) to several invocations
+    hostref = {}
 
     def new_vm(progidx):
         nonlocal next_vm
@@ -557,12 +571,20 @@ def gen_scenario(seed, tier="quick"):
                     args[n] = 0.0 if (wantfault and f["fault"] == "div") else rng.choice([0.5, 0.25, 2.5])
                 elif t == "int":
                     args[n] = rng.randint(-9, 9)
+                elif t in ("int3", "float4"):
+                    k = (f["name"], n)
+                    if k not in hostref or rng.random() < 0.3:
+                        hostref[k] = len(hostobjs)
+                        hostobjs.append([rng.randint(-9, 9) for _ in range(3)] if t == "int3"
+                                        else [rng.randint(-16, 16) * 0.25 for _ in range(4)])
+                    args[n] = {"$ref": hostref[k]}  # the same host object may be passed again later
                 else:
                     args[n] = rng.randint(-16, 16) * 0.25
+            margs = resolve_args(args, hostobjs)
             # domain guard: run the model on a copy first
             m = copy.deepcopy(models[v])
             try:
-                m.invoke(f["name"], args)
+                m.invoke(f["name"], copy.deepcopy(margs))
             except Fault:
                 pass
             except StepLimit:
@@ -571,13 +593,14 @@ def gen_scenario(seed, tier="quick"):
                 break
             ops.append(["inv", v, f["name"], args])
             try:
-                models[v].invoke(f["name"], args)
+                models[v].invoke(f["name"], copy.deepcopy(margs))
             except Fault:
                 # any snapshot is allowed; the generator continues from the
                 # state with all executed stores applied (the executor adopts
                 # whatever the VM really did)
                 models[v].g = m.g
-    sc = {"kind": "c15", "seed": seed, "prog": prog, "ops": ops, "optimize": sw["optimize"], "swarm": sw}
+    sc = {"kind": "c15", "seed": seed, "prog": prog, "ops": ops, "optimize": sw["optimize"], "swarm": sw,
+          "hostobjs": hostobjs}
     if rng.random() < 0.04:
         # beyond-statement probe P1: a host exception raised inside an invocation at a given VM
         # line event (KeyboardInterrupt analogue).  Tallied, never judged; the run ends there.
